@@ -5,28 +5,91 @@ import (
 	"strings"
 )
 
+// declaration returns the line without indentation and trailing comment; it is empty for blank and comment lines.
+func declaration(line string) string {
+	if i := strings.Index(line, " #"); i >= 0 {
+		line = line[:i]
+	}
+
+	line = strings.TrimSpace(line)
+	if strings.HasPrefix(line, "#") {
+		return ""
+	}
+
+	return line
+}
+
+// declares reports whether the line consists of the given keywords followed by exactly the given name,
+// i.e. the name must end where the line ends or where one of the terminators or a blank follows.
+func declares(line string, keywords []string, name string, terminators string) bool {
+	rest := declaration(line)
+
+	for _, keyword := range keywords {
+		if !strings.HasPrefix(rest, keyword) {
+			return false
+		}
+
+		rest = rest[len(keyword):]
+		if strings.TrimLeft(rest, " \t") == rest {
+			return false
+		}
+
+		rest = strings.TrimLeft(rest, " \t")
+	}
+
+	if !strings.HasPrefix(rest, name) {
+		return false
+	}
+
+	rest = rest[len(name):]
+
+	return rest == "" || strings.ContainsAny(rest[0:1], " \t"+terminators)
+}
+
 func GetConditionLineNumber(conditionName string, lines []string) int {
 	return slices.IndexFunc(lines, func(line string) bool {
-		return strings.HasPrefix(strings.TrimSpace(line), "condition "+conditionName)
+		return declares(line, []string{"condition"}, conditionName, "(")
 	})
 }
 
 func GetTypeLineNumber(typeName string, lines []string) int {
 	return slices.IndexFunc(lines, func(line string) bool {
-		return strings.HasPrefix(strings.TrimSpace(line), "type "+typeName)
+		return declares(line, []string{"type"}, typeName, "")
 	})
 }
 
 func GetExtendedTypeLineNumber(typeName string, lines []string) int {
 	return slices.IndexFunc(lines, func(line string) bool {
-		return strings.HasPrefix(strings.TrimSpace(line), "extend type "+typeName)
+		return declares(line, []string{"extend", "type"}, typeName, "")
 	})
 }
 
 func GetRelationLineNumber(relation string, lines []string) int {
 	return slices.IndexFunc(lines, func(line string) bool {
-		return strings.HasPrefix(strings.TrimSpace(line), "define "+relation)
+		return declares(line, []string{"define"}, relation, ":")
 	})
+}
+
+// GetExtendedRelationLineNumber returns the line on which the relation is defined inside the
+// `extend type` block of the given type, or -1.
+func GetExtendedRelationLineNumber(typeName string, relation string, lines []string) int {
+	start := GetExtendedTypeLineNumber(typeName, lines)
+	if start == -1 {
+		return -1
+	}
+
+	for index := start + 1; index < len(lines); index++ {
+		words := strings.Fields(declaration(lines[index]))
+		if len(words) > 0 && (words[0] == "type" || words[0] == "extend" || words[0] == "condition") {
+			break
+		}
+
+		if declares(lines[index], []string{"define"}, relation, ":") {
+			return index
+		}
+	}
+
+	return -1
 }
 
 type StartEnd struct {
